@@ -34,9 +34,15 @@ let tbl_str ((nok, h), bij) = Printf.sprintf "%s/%s/%s" (n_str nok) (n_str h) (b
 let wire_obs = memo (fun d -> tbl_str (wire_table_obs d))
 let pad_obs = memo (fun d -> tbl_str (pad_table_obs d))
 
+let contains (s : string) (sub : string) =
+  let n = String.length s and m = String.length sub in
+  let rec go i = i + m <= n && (String.sub s i m = sub || go (i + 1)) in
+  go 0
+let classify o = if o = "" then "err" else if contains o "=panic" then "panic" else "ok"
+
 let handle (line : string) : string =
   match String.split_on_char ' ' line with
-  | [ "nm"; h ] -> let o = name_obs (unhex h) in if o = "" then "allerr" else o
+  | [ "nm"; h ] -> let o = name_obs (unhex h) in if o = "" then "err" else classify o ^ " " ^ o
   | [ "nmblk"; p; cs ] ->
       let p = unhex p in
       let comps = String.split_on_char ',' cs in
@@ -45,12 +51,15 @@ let handle (line : string) : string =
           (fun c -> let s = p @ unhex c in let o = name_obs s in if o = "" then None else Some (" " ^ hexn s ^ ":" ^ o))
           comps
       in
-      string_of_int (List.length comps) ^ String.concat "" hits
+      let hs = String.concat "" hits in
+      classify hs ^ " " ^ string_of_int (List.length comps) ^ hs
   | [ "radix"; r; h ] -> (
       match from_str_radix_u8 (n_of_string r) (unhex h) with Some v -> "ok " ^ n_str v | None -> "err")
   | [ "run"; r ] ->
       let run = n_of_string r in
-      Printf.sprintf "w=%s p=%s" (wire_obs (wire_dispatch run)) (pad_obs (pwb_dispatch run))
+      let w = wire_obs (wire_dispatch run) and p = pad_obs (pwb_dispatch run) in
+      let zero x = String.length x >= 2 && String.sub x 0 2 = "0/" in
+      Printf.sprintf "%s w=%s p=%s" (if zero w && zero p then "err" else "ok") w p
   | [ "wpos"; r; b; ch ] -> (
       match wpos_obs (n_of_string r) (unhex b) (n_of_string ch) with
       | None -> "noboard"
@@ -60,11 +69,11 @@ let handle (line : string) : string =
       | None -> "noboard"
       | Some x -> out (fun (c, w) -> Printf.sprintf "ok %s %s" (n_str c) (n_str w)) x)
   | [ "wcol"; w ] -> (
-      match wcol_obs (n_of_string w) with None -> "nowire" | Some (s, c) -> n_str s ^ " " ^ n_str c)
+      match wcol_obs (n_of_string w) with None -> "nowire" | Some (s, c) -> "ok " ^ n_str s ^ " " ^ n_str c)
   | [ "colw"; c ] -> (
       match pad_column_to_wires (n_of_string c) with
-      | [] -> "-"
-      | l -> obs_list (List.sort (fun a b -> BZ.compare (n_to_z a) (n_to_z b)) l))
+      | [] -> "ok -"
+      | l -> "ok " ^ obs_list (List.sort (fun a b -> BZ.compare (n_to_z a) (n_to_z b)) l))
   | _ -> "unknown-case"
 
 let () = main handle
